@@ -450,7 +450,7 @@ def main(argv=None):
     I = Impl()
 
     ck.run_witnesses(["w12"])
-    ck.prove(extra_targets=["Bridge/BridgeGroup.v", "Bridge/BridgeGroup2.v"],
+    ck.prove(extra_targets=["Bridge/BridgeGroup.v", "Bridge/BridgeGroup2.v", "Props/C16own.v"],
              gen_kernels=["group_prelude", "kv_predicate", "filter_keyvals", "sort_by_timestamp", "sort_by_duration",
                           "limit_events", "concat",
                           "group2_prelude", "merge_events_by_keys", "chunk_events_by_key"])
@@ -511,8 +511,11 @@ def main(argv=None):
         "chunk_events_by_key: key != 'subevents' (the chunk's own data key) is the model's domain; probed separately",
         "sum_durations: the model is the exact integer sum; the code's float route is compared within 1 us "
         "(largest deviation seen is in coverage.sum_durations_max_float_deviation_us)",
-        "'inputs are not modified' is decided by the before/after comparison of this harness (deep value + object "
-        "identity), not by a theorem"]
+        "'none of these modify their input': theorems over the heap-level model (Props/C16own.v: FRAME for every heap and "
+        "aliasing, SHARING stated exactly, refinement to Model/Group.v), tied by harness/theap2.py (sharing graphs + "
+        "before/after snapshots with aliasing inputs); the before/after comparison of this harness still runs"]
+    from . import theap2           # heap-level model of the C16 transforms (Props/C16own.v), tie A with aliasing
+    theap2.heap_check(ck, "C16", have_driver=theap2.prepare(ck, "C16"))
     return ck.finish(RULE)
 
 
